@@ -4,7 +4,7 @@ EXPLANATION = (
     "Proved (all inputs): the tree-position machine that decides which edges leave and enter at every step "
     "(tsk_tree_position_next/prev/seek_forward/seek_backward: canonical in/out ranges = exactly the edges that end / "
     "start at the boundary, no covering edge skipped on a seek), tsk_search_sorted, and check_tree_integrity's "
-    "memory safety and index-permutation clause. The edit functions that apply those ranges to the quintuply linked "
+    "memory safety and index-permutation clause; the four primitive edits of the quintuply linked arrays (exact effect on every cell, whole-array postconditions) and, as lemmas over those contract formulas, preservation of the sibling-list well-formedness (ghost rank along right_sib). The edit functions that apply those ranges to the quintuply linked "
     "arrays (tsk_tree_insert_edge/remove_edge and the sample-count / root maintenance) and every derived view "
     "(children, siblings, roots under the threshold, sample and tracked counts, sample lists, edge array, mrca, "
     "depth, branch lengths, all traversal orders, per-tree sites, edge_diffs, at/at_index/first/last) are compared "
@@ -19,10 +19,13 @@ C_FUNCS = [
     ("trees.c", "tsk_tree_position_seek_forward"),
     ("trees.c", "tsk_tree_position_seek_backward"),
     ("trees.c", "tsk_tree_check_node"),
+    ("trees.c", "tsk_tree_insert_branch"), ("trees.c", "tsk_tree_remove_branch"),
+    ("trees.c", "tsk_tree_insert_root"), ("trees.c", "tsk_tree_remove_root"),
     ("tables.c", "tsk_table_collection_check_tree_integrity"),
 ]
+LEMMAS = ["lemmas.tree_links:edits_preserve_wellformedness"]
 BOUNDED = [{"name": "trees_vs_edge_table", "module": "standins.c01_trees", "timeout": 900}]
-UNVERIFIED = ["tsk_tree_insert_edge/remove_edge/insert_branch/remove_branch/insert_root/remove_root",
+UNVERIFIED = ["tsk_tree_insert_edge/remove_edge (sample-count propagation, root maintenance)",
               "tsk_tree_update_sample_lists, tsk_tree_clear, tsk_tree_next/prev (edit loops)",
               "tsk_treeseq_init_trees (breakpoints)", "traversals, mrca, depth (bounded only)",
               "python/tskit/trees.py wrappers and edge_diffs generators (bounded only)"]
